@@ -513,8 +513,11 @@ class Textgrid:
     def renameTier(self, oldName: str, newName: str) -> None:
         oldTier = self.getTier(oldName)
         tierIndex = self.tierNames.index(oldName)
+        if newName != oldName and newName in self.tierNames:
+            raise errors.TierNameExistsError("Tier name already in tier")
+        newTier = oldTier.new(newName, oldTier.entries)
         self.removeTier(oldName)
-        self.addTier(oldTier.new(newName, oldTier.entries), tierIndex)
+        self.addTier(newTier, tierIndex)
 
     def removeTier(self, name: str) -> textgrid_tier.TextgridTier:
         return self._tierDict.pop(name)
@@ -526,8 +529,15 @@ class Textgrid:
         reportingMode: Literal["silence", "warning", "error"] = "warning",
     ) -> None:
         tierIndex = self.tierNames.index(name)
-        self.removeTier(name)
-        self.addTier(newTier, tierIndex, reportingMode)
+        if newTier.name != name and newTier.name in self.tierNames:
+            raise errors.TierNameExistsError("Tier name already in tier")
+        oldTier = self.removeTier(name)
+        try:
+            self.addTier(newTier, tierIndex, reportingMode)
+        except Exception:
+            # Put the replaced tier back; a failed replace changes nothing
+            self.addTier(oldTier, tierIndex, constants.ErrorReportingMode.SILENCE)
+            raise
 
     def validate(
         self, reportingMode: Literal["silence", "warning", "error"] = "warning"
